@@ -68,7 +68,93 @@ def run_rules(mod, model):
     return keys, None
 
 
-def validate(pid, mod, model, base_results=None):
+def _eval_variant(args):
+    """Worker: evaluate one variant (text substitution or seeded patch)."""
+    import importlib
+    pid, sources, root, kind, payload, base = args
+    mod = importlib.import_module(f'dtverif.rules.{pid.lower()}')
+    model = Model(sources=sources, root=root)
+    if kind == 'variant':
+        v = payload
+        m2 = apply_variant(model, v)
+        name, fires = v.name, v.fires
+    else:
+        name, patch = payload
+        m2 = apply_patch(model, patch)
+        fires = 'ANY'
+    rec = {'name': name, 'expect': fires or 'silent', 'kind': kind}
+    if m2 is None:
+        rec['result'] = 'stale'
+        return rec
+    keys, err = run_rules(mod, m2)
+    new = keys - base
+    rec['new_findings'] = sorted(k for _, k in new)[:4]
+    if err:
+        rec['analysis_error'] = err
+    if fires:
+        ok = bool(new) if fires == 'ANY' else any(r == fires
+                                                  for r, _ in new)
+        rec['result'] = 'fired' if ok else 'MISSED'
+    else:
+        rec['result'] = 'silent' if not new and not err else 'FALSE-ALARM'
+    return rec
+
+
+def apply_patch(model, patch_path):
+    """Model of the current sources with a unified diff applied (in a
+    scratch directory outside /repo and /verif, removed afterwards)."""
+    import os
+    import shutil
+    import subprocess
+    import tempfile
+    tmp = tempfile.mkdtemp(prefix='dtverif-seed-')
+    try:
+        for rel, src in model.sources.items():
+            dst = os.path.join(tmp, rel)
+            os.makedirs(os.path.dirname(dst), exist_ok=True)
+            with open(dst, 'w', encoding='utf-8') as fh:
+                fh.write(src)
+        r = subprocess.run(['patch', '-p1', '--fuzz=3', '-s', '-i',
+                            patch_path], cwd=tmp, capture_output=True)
+        if r.returncode != 0:
+            return None
+        try:
+            srcs = {}
+            for rel in model.sources:
+                with open(os.path.join(tmp, rel), encoding='utf-8') as fh:
+                    srcs[rel] = fh.read()
+            return Model(sources=srcs, root=model.root)
+        except AnalysisError:
+            return None
+    finally:
+        shutil.rmtree(tmp, ignore_errors=True)
+
+
+def seeded_for(pid):
+    """(name, patch path) of the kept sub-agent changes this property's
+    check is recorded to detect."""
+    import json
+    import os
+    base = os.path.join(os.path.dirname(os.path.dirname(
+        os.path.abspath(__file__))), 'seeded')
+    out = []
+    if not os.path.isdir(base):
+        return out
+    for name in sorted(os.listdir(base)):
+        mp = os.path.join(base, name, 'meta.json')
+        pp = os.path.join(base, name, 'patch.diff')
+        if not (os.path.exists(mp) and os.path.exists(pp)):
+            continue
+        with open(mp) as fh:
+            meta = json.load(fh)
+        if pid in meta.get('detected_by', []):
+            out.append((name, pp))
+    return out
+
+
+def validate(pid, mod, model, base_results=None, jobs=None):
+    import os
+    from concurrent.futures import ProcessPoolExecutor
     cat = getattr(mod, 'VARIANTS', None)
     if cat is None:
         try:
@@ -78,47 +164,56 @@ def validate(pid, mod, model, base_results=None):
             cat = []
     base, err = run_rules(mod, model)
     out = {'must_fire': 0, 'fired': 0, 'must_stay_silent': 0, 'silent': 0,
+           'seeded': 0, 'seeded_fired': 0, 'seeded_stale': 0,
            'failures': [], 'variants': []}
     if err:
         out['failures'].append(f'baseline: {err}')
         return out
-    for v in cat:
-        m2 = apply_variant(model, v)
-        rec = {'name': v.name, 'expect': v.fires or 'silent'}
-        if v.fires:
+    tasks = [(pid, model.sources, model.root, 'variant', v, base)
+             for v in cat]
+    tasks += [(pid, model.sources, model.root, 'seeded', sp, base)
+              for sp in seeded_for(pid)]
+    jobs = jobs or min(16, os.cpu_count() or 4, max(1, len(tasks)))
+    if jobs > 1 and len(tasks) > 2:
+        with ProcessPoolExecutor(max_workers=jobs) as ex:
+            recs = list(ex.map(_eval_variant, tasks))
+    else:
+        recs = [_eval_variant(t) for t in tasks]
+    for rec in recs:
+        if rec['kind'] == 'seeded':
+            out['seeded'] += 1
+            if rec['result'] == 'fired':
+                out['seeded_fired'] += 1
+            elif rec['result'] == 'stale':
+                out['seeded_stale'] += 1     # patch no longer applies
+            else:
+                out['failures'].append(
+                    f'seeded {rec["name"]}: no longer detected '
+                    f'({rec.get("analysis_error")})')
+        elif rec['expect'] != 'silent':
             out['must_fire'] += 1
+            if rec['result'] == 'fired':
+                out['fired'] += 1
+            elif rec['result'] == 'stale':
+                out['failures'].append(f'{rec["name"]}: anchor text not '
+                                       'found (catalogue is stale)')
+            else:
+                out['failures'].append(
+                    f'{rec["name"]}: expected {rec["expect"]} to fire; new '
+                    f'findings: {rec.get("new_findings")} error: '
+                    f'{rec.get("analysis_error")}')
         else:
             out['must_stay_silent'] += 1
-        if m2 is None:
-            rec['result'] = 'stale'
-            out['failures'].append(f'{v.name}: anchor text not found '
-                                   f'(x{v.count}) in {v.file}')
-            out['variants'].append(rec)
-            continue
-        keys, err = run_rules(mod, m2)
-        new = keys - base
-        rec['new_findings'] = sorted(k for _, k in new)[:4]
-        if err:
-            rec['analysis_error'] = err
-        if v.fires:
-            ok = any(r == v.fires for r, _ in new)
-            if ok:
-                out['fired'] += 1
-                rec['result'] = 'fired'
-            else:
-                rec['result'] = 'MISSED'
-                out['failures'].append(
-                    f'{v.name}: expected {v.fires} to fire; new findings: '
-                    f'{sorted(new)[:3]} error: {err}')
-        else:
-            if not new and not err:
+            if rec['result'] == 'silent':
                 out['silent'] += 1
-                rec['result'] = 'silent'
+            elif rec['result'] == 'stale':
+                out['failures'].append(f'{rec["name"]}: anchor text not '
+                                       'found (catalogue is stale)')
             else:
-                rec['result'] = 'FALSE-ALARM'
                 out['failures'].append(
-                    f'{v.name}: expected silence; got {sorted(new)[:3]} '
-                    f'error: {err}')
+                    f'{rec["name"]}: expected silence; got '
+                    f'{rec.get("new_findings")} error: '
+                    f'{rec.get("analysis_error")}')
         out['variants'].append(rec)
     return out
 
